@@ -196,7 +196,7 @@ func (req *Request) Read(b *bufio.Reader) error {
 		if e != nil {
 			return ErrInvalidCmd
 		}
-		if !config.IsValidValueSize(uint32(length)) {
+		if length < 0 || !config.IsValidValueSize(uint32(length)) {
 			return ErrValueTooLarge
 		}
 		if length > int(config.MCConf.BodyBig) {
